@@ -1111,6 +1111,33 @@ impl ASN1Value {
                 }
                 Ok(())
             }
+            // a local time consists of digits only and has been lexed as a character string
+            (ASN1Type::UTCTime(_) | ASN1Type::GeneralizedTime(_), ASN1Value::String(local)) => {
+                *self = ASN1Value::Time(std::mem::take(local));
+                self.link_with_type(tlds, ty, type_name)
+            }
+            (
+                ASN1Type::UTCTime(_) | ASN1Type::GeneralizedTime(_),
+                ASN1Value::LinkedNestedValue { value, .. },
+            ) if matches![**value, ASN1Value::String(_)] => {
+                if let ASN1Value::String(local) = &mut **value {
+                    **value = ASN1Value::Time(std::mem::take(local));
+                }
+                self.link_with_type(tlds, ty, type_name)
+            }
+            (ASN1Type::UTCTime(_), ASN1Value::Time(t)) => {
+                *t = utc_time_with_century(t)?;
+                Ok(())
+            }
+            (ASN1Type::GeneralizedTime(_), ASN1Value::Time(_)) => Ok(()),
+            (ASN1Type::UTCTime(_), ASN1Value::LinkedNestedValue { value, .. })
+                if matches![**value, ASN1Value::Time(_)] =>
+            {
+                if let ASN1Value::Time(t) = &mut **value {
+                    *t = utc_time_with_century(t)?;
+                }
+                Ok(())
+            }
             (ASN1Type::Integer(i), ASN1Value::Integer(val)) => {
                 *self = ASN1Value::LinkedIntValue {
                     integer_type: i.int_type(),
@@ -1768,6 +1795,27 @@ impl ASN1Value {
             _ => {}
         }
         Ok(())
+    }
+}
+
+/// Writes a `UTCTime` value (`YYMMDDhhmm[ss](Z|+hhmm|-hhmm)`) with a four-digit year and with
+/// seconds, i.e. in the notation of `GeneralizedTime` values. Two-digit years are read as
+/// 1950..=2049. A value that already has that form is left alone.
+fn utc_time_with_century(value: &str) -> Result<String, GrammarError> {
+    let digits = value.bytes().take_while(u8::is_ascii_digit).count();
+    let century = match value.get(..2).and_then(|yy| yy.parse::<u8>().ok()) {
+        Some(yy) if yy >= 50 => "19",
+        Some(_) => "20",
+        None => "",
+    };
+    match (digits, century) {
+        (14, _) => Ok(value.to_owned()),
+        (12, c) if !c.is_empty() => Ok(format!("{c}{value}")),
+        (10, c) if !c.is_empty() => Ok(format!("{c}{}00{}", &value[..10], &value[10..])),
+        _ => Err(grammar_error!(
+            LinkerError,
+            "\"{value}\" is not a UTCTime value"
+        )),
     }
 }
 
